@@ -175,7 +175,9 @@ impl ErrorDisplay for PrettyPrint {
         let mut errors_in_other_files = 0;
         for err in &self.diagnostics.clone() {
             if let Some(base_file) = parser.reader.get_base_file() {
-                if err.file != base_file && !self.options.all_files {
+                // A diagnostic that belongs to no file (the analysis of the
+                // whole program failed) is not one "in another file".
+                if err.file != base_file && !err.file.is_nil() && !self.options.all_files {
                     errors_in_other_files += 1;
                     continue;
                 }
@@ -249,7 +251,9 @@ impl ErrorDisplay for JSONPrint {
         let sub: Vec<_> = self
             .diagnostics
             .iter()
-            .filter(|d| self.all_files || base_file.is_none_or(|base| d.file == base))
+            .filter(|d| {
+                self.all_files || d.file.is_nil() || base_file.is_none_or(|base| d.file == base)
+            })
             .map(|d| self.wrap_item(parser, d))
             .collect();
 
